@@ -81,7 +81,10 @@ func (x *XArray) Format(env envs.Environment) string {
 	if multiline {
 		for i, p := range parts {
 			p = utils.Indent(p, "  ")
-			parts[i] = "-" + p[1:]
+			if len(p) > 0 {
+				p = p[1:] // the bullet takes the place of the first character of the indent
+			}
+			parts[i] = "-" + p
 		}
 
 		return strings.Join(parts, "\n")
